@@ -195,8 +195,9 @@ class Field:
         if dof_n == 1:
             return array
         else:
-            newArray = FeArray.zeros(Ne, nPg, dim, dof_n, dtype=float)
-            newArray[..., :, dof] = array
+            # (dof_n, dim) = du_i/dx_j, as documented and as returned when the field is evaluated
+            newArray = FeArray.zeros(Ne, nPg, dof_n, dim, dtype=float)
+            newArray[..., dof, :] = array
             return newArray
 
     def Evaluate_e(
